@@ -555,6 +555,8 @@ def build_case(ch, tier, kind=None):
         if eh:
             e['fde_enc'] = ch.choice(FDE_ENCS) | ch.choice([0, 0, 0x10])
             e['lsda_enc'] = ch.choice(FDE_ENCS) | ch.choice([0, 0, 0x10])
+            if ch.bool(0.1):
+                e['lsda_enc'] = 0xff      # DW_EH_PE_omit: 'L' is declared but the entries carry no LSDA pointer
             penc = ch.choice(FDE_ENCS) | ch.choice([0, 0x10, 0x80, 0x90])
             lo, hi = ptr_range(A, penc)
             e['pers'] = [penc, ch.choice([0, 1, hi, lo, ch.int(lo, hi)])]
@@ -661,6 +663,8 @@ def sweep(tier):
                             ch = RndChooser(60000 + k)
                             fenc = FDE_ENCS[k % len(FDE_ENCS)] | (0x10 if k % 2 else 0)
                             lenc = FDE_ENCS[(k // 2) % len(FDE_ENCS)] | (0x10 if (k // 3) % 2 else 0)
+                            if k % 7 == 3:
+                                lenc = 0xff   # DW_EH_PE_omit
                             cie = {'t': 'cie', 'fmt': fmt, 'version': (1, 3, 4)[k % 3] if kind == 'debug_frame' else (1, 3)[k % 2], 'aug': aug, 'caf': caf, 'daf': daf,
                                    'rar': 16, 'pad': k % 4, 'fde_enc': fenc, 'lsda_enc': lenc, 'pers': [0x03 | (0x90 if k % 2 else 0), 0x1234],
                                    'ops': [['def_cfa', 7, 8], ['offset', 16, 1], ['offset_extended', 200, 2]]}
